@@ -43,6 +43,9 @@ class H(Harness):
         for i in range(max(30, n // 5)):
             c = compart.gen_case(rnd)
             c['seq'] = rnd.random() < 0.5
+            if c['seq']:
+                # observation intervals whose running sum is not k*dt in binary64 (0.1, 0.3) next to the dyadic ones
+                c['delta'] = rnd.choice([0.5, 0.25, 0.1, 0.1, 0.3])
             out.append(c)
         return out
 
